@@ -39,6 +39,10 @@ pub struct NetCfg {
     /// run `passage::start(config)` with built-in adapters instead of a `Listener` with sim services
     #[serde(default)]
     pub use_start: bool,
+    /// (with `use_start`) discovery is the Agones adapter, watching a simulated Kubernetes API server that
+    /// holds one Ready GameServer at the first scripted target's address
+    #[serde(default)]
+    pub agones: bool,
 }
 
 impl Default for NetCfg {
@@ -51,6 +55,7 @@ impl Default for NetCfg {
             proxy: None,
             limiter: None,
             use_start: false,
+            agones: false,
         }
     }
 }
@@ -162,7 +167,11 @@ fn build_start_config(sc: &NetScenario) -> passage::config::Config {
         crate::services::DiscRes::Targets(ts) => ts.iter().map(|t| t.to_target()).collect(),
         _ => vec![],
     };
-    c.adapters.discovery = pc::DiscoveryAdapter::Fixed(pc::FixedDiscovery { targets });
+    c.adapters.discovery = if sc.cfg.agones {
+        pc::DiscoveryAdapter::Agones(pc::AgonesDiscovery { namespace: Some("default".to_string()), ..Default::default() })
+    } else {
+        pc::DiscoveryAdapter::Fixed(pc::FixedDiscovery { targets })
+    };
     c.adapters.filter = vec![];
     c.adapters.strategy = pc::StrategyAdapter::Any;
     let profile = match &sc.services.auth.default.res {
@@ -202,6 +211,7 @@ pub fn run_net(sc: &NetScenario) -> NetOutcome {
     let local = tokio::task::LocalSet::new();
     let out = local.block_on(&rt, run_net_async(sc));
     passage_protocol::verif::clock::set_wall(None);
+    passage_adapters_agones::verif::set_client(None);
     vnet::reset();
     drop(local);
     drop(rt);
@@ -237,6 +247,20 @@ async fn run_net_async(sc: &NetScenario) -> NetOutcome {
     // the system under simulation
     let ld = listen_done.clone();
     let w2 = world.clone();
+    if sc.cfg.use_start && sc.cfg.agones {
+        // the Kubernetes API server the Agones adapter will list and watch (hook H4 hands its client out)
+        let api: crate::apisim::Api = Arc::new(std::sync::Mutex::new(crate::apisim::ApiState::default()));
+        let addr: SocketAddr = match &sc.services.discovery.default.res {
+            crate::services::DiscRes::Targets(ts) if !ts.is_empty() => ts[0].addr.parse().unwrap_or_else(|_| "10.9.8.7:25565".parse().unwrap()),
+            _ => "10.9.8.7:25565".parse().unwrap(),
+        };
+        let gs = crate::props::c20::Gs { name: "gs-a".into(), state: "Ready".into(), address: Some(addr.ip().to_string()), ports: vec![addr.port()], counters: Default::default(), lists: Default::default(), labels: Default::default(), annotations: Default::default() };
+        api.lock().unwrap().apply("gs-a", gs.to_json());
+        let t0 = world.lock().unwrap().t0;
+        let now_ns = move || tokio::time::Instant::now().saturating_duration_since(t0).as_nanos() as u64;
+        let service = tower::service_fn(move |req: http::Request<kube::client::Body>| crate::apisim::handle(api.clone(), req, now_ns));
+        passage_adapters_agones::verif::set_client(Some(kube::Client::new(service, "default")));
+    }
     let listener_task = if sc.cfg.use_start {
         let config = build_start_config(sc);
         tokio::task::spawn_local(async move {
